@@ -52,6 +52,11 @@ structure Placed (bb : BitBlock) (o w : Nat) : Prop where
   bytes_ok : ∀ b ∈ bb.bytes, b < 256
   null_ok : bb.order = .null → bb.c = 8
 
+/-- `result` is `old` with bits `[o, o+w)` replaced by `new` and **every other bit
+unchanged** (the frame condition of a field write). -/
+def Updated (o w old new result : Nat) : Prop :=
+  ∀ i, result.testBit i = if o ≤ i ∧ i < o + w then new.testBit (i - o) else old.testBit i
+
 /-- The bits covered by the field, per the documentation. -/
 def fieldBits (bb : BitBlock) (o w : Nat) : Nat :=
   bits o w (containerValue bb.order bb.bytes)
